@@ -19,6 +19,19 @@ fn k_lang_frag() {
     assert!(encode_language_code("und") == [0x55, 0xc4]);
 }
 
+/// BOUNDED (valid UTF-8 strings of at most 5 bytes): the fragmented copy of the language packer never panics.
+#[kani::proof]
+#[kani::unwind(8)]
+fn kb_lang_frag_any_utf8() {
+    let bytes: [u8; 5] = kani::any();
+    let n: usize = kani::any();
+    kani::assume(n <= 5);
+    if let Ok(s) = core::str::from_utf8(&bytes[..n]) {
+        let p = encode_language_code(s);
+        assert!(p[0] & 0x80 == 0);
+    }
+}
+
 fn be32_at(b: &[u8], o: usize) -> u32 { ((b[o] as u32) << 24) | ((b[o + 1] as u32) << 16) | ((b[o + 2] as u32) << 8) | (b[o + 3] as u32) }
 fn be64_at(b: &[u8], o: usize) -> u64 { ((be32_at(b, o) as u64) << 32) | (be32_at(b, o + 4) as u64) }
 fn frag_cfg() -> FragmentConfig {
